@@ -225,6 +225,14 @@ class Interp:
             return False
         # feasibility pruning uses only the quantifier-free part of the path condition: weaker premises can only
         # keep more paths (sound), and quantified premises make these frequent small queries slow/unstable
+        # syntactic shortcut (sound): a condition that is literally on the path is feasible, one whose negation is
+        # literally on the path is not (pc and e would be contradictory) - saves the solver call for re-tested conditions
+        eid = e.get_id()
+        pcids = {t.get_id() for t in st.pc}
+        if eid in pcids:
+            return True
+        if z3.Not(e).get_id() in pcids or (z3.is_not(e) and e.arg(0).get_id() in pcids):
+            return False
         qf = [t for t in st.pc if not self._has_quant(t)]
         if self._has_quant(e):
             return True
@@ -542,7 +550,7 @@ class Interp:
                 m = self.class_members(c)
                 if name in m:
                     v = m[name]
-                    if isinstance(v, tuple) and len(v) == 2 and v[0] == "expr":
+                    if isinstance(v, tuple) and len(v) == 2 and v[0] == "expr" and isinstance(v[1], ast.AST):
                         v = self.eval_class_const(c, name, v[1])
                         m[name] = v
                     return v, c
@@ -560,7 +568,7 @@ class Interp:
         for k, v in self.class_members(cls).items():
             if k == name:
                 break
-            if not (isinstance(v, tuple) and v and v[0] == "expr"):
+            if not (isinstance(v, tuple) and len(v) == 2 and v[0] == "expr" and isinstance(v[1], ast.AST)):
                 fr.vars[k] = v
         try:
             outs = list(self.ev(expr, st))
@@ -966,7 +974,9 @@ class Interp:
             elif isinstance(node.op, ast.UAdd):
                 yield st1, v
             else:
-                raise Unsupported("unary ~ (bit operations are outside the mathematical-integer subset)")
+                from . import ops as _ops
+
+                yield st1, _ops.invert(self, st1, v)
 
     def ev_BinOp(self, node, st):
         for st1, vs in self.ev_many([node.left, node.right], st):
@@ -1443,8 +1453,10 @@ class Interp:
             raise Unsupported("truth value of term of sort %s" % v.sort())
         if isinstance(v, self.models.Inf):
             return True
-        if isinstance(v, (str, tuple)):
+        if isinstance(v, (str, tuple, bytes)):
             return len(v) > 0
+        if type(v).__name__ in ("PickleBlob", "ReMatch"):
+            return True  # pickle.dumps never returns an empty byte string; a match object is truthy
         if isinstance(v, frozenset):
             return len(v) > 0
         if isinstance(v, (FrozenList, FrozenDict)):
